@@ -8,6 +8,7 @@ import (
 
 	"cosmossdk.io/math"
 	sdk "github.com/cosmos/cosmos-sdk/types"
+	authtypes "github.com/cosmos/cosmos-sdk/x/auth/types"
 	banktypes "github.com/cosmos/cosmos-sdk/x/bank/types"
 
 	opchildtypes "github.com/initia-labs/OPinit/x/opchild/types"
@@ -88,7 +89,9 @@ func (w *c09World) opDeposit() {
 	to := mon.Pick(w.rng, e.Users).String()
 	bad := w.rng.Chance(15)
 	if bad {
-		to = mon.Pick(w.rng, []string{"garbage", e.L2.Authority})
+		// unusable recipients: not an address, the module authority, the (blocked) fee collector — which already holds
+		// bridged tokens of its own (collected fees) that a refund has no business touching
+		to = mon.Pick(w.rng, []string{"garbage", e.L2.Authority, authtypes.NewModuleAddress(authtypes.FeeCollectorName).String()})
 	}
 	amt := math.NewInt(int64(w.rng.Intn(100000)))
 	if w.rng.Chance(5) {
@@ -123,6 +126,10 @@ func (w *c09World) opDeposit() {
 		if msg.Data == nil {
 			hook = ""
 		}
+	}
+	if bad && w.rng.Bool() {
+		msg.Data = w.rng.Bytes(1 + w.rng.Intn(40)) // the failed deposit carried hook data (never run)
+		hook = "data-on-failed-deposit"
 	}
 	fault := ""
 	var res sim.Result
@@ -330,8 +337,17 @@ func checkC09(run *mon.Run, rng *mon.Rand, thorough bool) {
 	steps := pick(thorough, 500, 1500)
 	for h := 0; h < hist && !run.TooMany(); h++ {
 		r := rng.Split()
-		e := newL2Env(L2EnvOpts{})
+		// a third of the chains never registers its bridge info (deposits, refunds and the denom map exist without it)
+		e := newL2Env(L2EnvOpts{NoBridgeInfo: r.Chance(33)})
 		w := &c09World{run: run, rng: r, e: e, supply: map[string]*big.Int{}, pairs: map[string]string{}, nextL1: 1, nextL2: 1, feat: map[string]int{}, natives: []string{"unative", "ugas"}}
+		if r.Bool() {
+			// the fee collector holds bridged tokens (fees collected in them, here put there directly)
+			for _, d := range []string{"uinit", "uusdc"} {
+				c := sdk.NewCoin(e.L2Denom(d), math.NewInt(50_000_000))
+				e.L2.FundModule(authtypes.FeeCollectorName, c)
+				w.add(c.Denom, c.Amount.BigInt())
+			}
+		}
 		for _, u := range e.Users {
 			for _, d := range w.natives {
 				e.L2.Fund(u.Addr, sdk.NewCoin(d, math.NewInt(1_000_000)))
